@@ -1017,7 +1017,11 @@ pub fn absent_option<T: Write>(writer: &mut T) -> io::Result<()> {
 pub fn skip_option<T: Read>(reader: &mut T) -> io::Result<()> {
     let elements = usize::load(reader)?;
     if elements > 0 {
-        io::copy(&mut reader.by_ref().take((elements * bits::WORD_BYTES) as u64), &mut io::sink())?;
+        let bytes = (elements * bits::WORD_BYTES) as u64;
+        let copied = io::copy(&mut reader.by_ref().take(bytes), &mut io::sink())?;
+        if copied != bytes {
+            return Err(Error::new(ErrorKind::UnexpectedEof, "The input ends inside the optional structure"));
+        }
     }
     Ok(())
 }
